@@ -143,7 +143,16 @@ def _quat_sign(kind, signs, full):
         err, err2 = e.calc_error(), e2.calc_error()
         P.check_eq("err_translation", err2[:3], err[:3])
         if kind == "odom":
-            P.check_eq("err_rotation_up_to_sign", err2[3:], s * np.array(err[3:]))
+            # the rotational error of the same physical edge may differ by a common sign at most (which sign is the
+            # implementation's choice: raw vector part today, a canonical representative after a repair)
+            same, neg = True, True
+            for i in range(3, 6):
+                same = P.both(same, err2[i] - err[i] <= 1e-9) if not P.symbolic else P.both(same, err2[i] == err[i])
+                neg = P.both(neg, err2[i] + err[i] <= 1e-9) if not P.symbolic else P.both(neg, err2[i] == -err[i])
+            if not P.symbolic:
+                same = all(abs(float(err2[i]) - float(err[i])) <= 1e-9 * (1 + abs(float(err[i]))) for i in range(3, 6))
+                neg = all(abs(float(err2[i]) + float(err[i])) <= 1e-9 * (1 + abs(float(err[i]))) for i in range(3, 6))
+            P.check("err_rotation_up_to_sign", P.either(same, neg))
         tag = "full" if full else "blockdiag"
         P.check_eq("chi2_%s" % tag, e2.calc_chi2(), e.calc_chi2())
         J, J2 = e.calc_jacobians(), e2.calc_jacobians()
